@@ -84,8 +84,16 @@ func ZZ_C14_TagScan() {
 	for i := 0; i < n; i++ {
 		zz.Assume(zz.And(s[i] < 0x80, zz.And(s[i] != '\n', s[i] != '\r')))
 	}
-	got := RecordSummary{s}.Tags().original
+	// lines=2: the same bytes as a two-line summary, split at every position (a value
+	// must be closed on its own line; tags never span lines)
+	sum := RecordSummary{s}
 	want := zzScanTags(s)
+	if zz.ParamOr("lines", 1) == 2 {
+		k := zz.Choose(n + 1)
+		sum = RecordSummary{s[:k], s[k:]}
+		want = append(zzScanTags(s[:k]), zzScanTags(s[k:])...)
+	}
+	got := sum.Tags().original
 	zz.Observe("ntags", len(got))
 	zz.Assert(len(got) == len(want), "same-number-of-tags")
 	if len(got) != len(want) {
@@ -96,7 +104,7 @@ func ZZ_C14_TagScan() {
 		zz.Assert(got[i].Value() == want[i].value, "tag-value-verbatim")
 	}
 	// matching: a tag with value also matches its bare name
-	ts := RecordSummary{s}.Tags()
+	ts := sum.Tags()
 	for _, w := range want {
 		zz.Assert(ts.Contains(NewTagOrPanic(w.name, "")), "bare-name-matches")
 		if w.value != "" {
